@@ -139,7 +139,8 @@ public:
   {
     resize(bufferEnd - bufferStart + size);
     Memory::copy(bufferEnd - size, data, size);
-    *bufferEnd = 0;
+    if(buffer)
+      *bufferEnd = 0;
   }
 
   void append(const Buffer& data)
